@@ -23,3 +23,7 @@ def run(ctx, res):
     prog = ctx.prog("K0")
     fieldmodel.check_fields(prog, res, prop="C08")
     fieldmodel.check_handwritten(prog, res, prop="C08")
+    # the field models read "carrier kind + width" as unsigned / two's-complement / sign-magnitude values: that reading is decided here
+    import bitio
+    bitio.rule_bitsem(prog, res)
+    bitio.rule_signsem(prog, res)
